@@ -410,6 +410,21 @@ func genParserRuns(seed int64, n int, tier string) []Script {
 			pre, _ := genInput(r, r.Intn(20))
 			data = append(data, pre...)
 		}
+		if (kind == "GSAP" || kind == "OSAP") && r.Intn(3) == 0 {
+			// an equal run further back than the window, separated by
+			// other data: the longest match in the buffer is out of reach
+			w := int(num(cfg["WindowSize"]))
+			if w == 0 || w > 60 {
+				w = 3 + r.Intn(40)
+				cfg["WindowSize"] = w
+			}
+			for j := 0; j < 40+r.Intn(40); j++ {
+				data = append(data, c)
+			}
+			for j := 0; j < w+1+r.Intn(30); j++ {
+				data = append(data, byte('A'+j%50))
+			}
+		}
 		l := 32 + r.Intn(400)
 		for j := 0; j < l; j++ {
 			data = append(data, c)
